@@ -47,4 +47,17 @@ func ConvertIntToTime
   ensures microseconds: timeUnit == 1000 ==> result == timestampInt * 1000
   ensures nanoseconds: timeUnit == 1 ==> result == timestampInt
   ensures any-other-unit-counts-seconds: timeUnit != 1000000000 && timeUnit != 1000000 && timeUnit != 1000 && timeUnit != 1 ==> result == timestampInt * 1000000000
+
+// truth of a value: a boolean is itself, a number is true unless it is zero, a text is what strconv.ParseBool makes of it,
+// anything else (NULL included) is an error and false
+func ToBoolE
+  props C06 C03
+  option pure
+  ensures a-boolean-is-itself: hasType(value, bool) ==> result1 == nil && result0 == boolval(value)
+  ensures an-integer-is-true-unless-zero: castIsInt(value) ==> result1 == nil && (result0 <==> intval(value) != 0)
+  ensures a-float-is-true-unless-zero: hasType(value, float64) || hasType(value, float32) ==> result1 == nil && (result0 <==> realval(value) != 0.0)
+  ensures a-text-is-what-parsebool-says: hasType(value, string) && result1 == nil ==> result0 == strconv.ParseBool(strval(value))
+  ensures null-is-no-boolean: value == nil ==> result1 != nil && !result0
+  ensures an-error-means-false: result1 != nil ==> !result0
 @*/
+
